@@ -30,7 +30,8 @@ without reference to what the generators draw). Wave 4 ({waves.get('4',0)} chang
 purpose and is marked as such: those agents were additionally told, in prose, which
 configurations, shapes, sizes and fault kinds the generators draw and were asked for changes such
 a checker would still miss - they are adversarial to the machinery, not independent of it. Wave 5
-({waves.get('5',0)} changes) went back to the property text alone (plus the list of earlier changes to avoid).
+({waves.get('5',0)} changes) and wave 6 ({waves.get('6',0)} changes) went back to the property text alone (plus the list of earlier
+changes to avoid).
 "yes" = caught by the quick tier of the machinery as it was when the change arrived; "after
 strengthening" = first missed, then caught after the generator or oracle was extended (the last
 column says what was missing); "not claimed" = the change does not violate the property as stated
@@ -44,7 +45,11 @@ judged on printed instead of exact outcomes) and the missing file-system seam; w
 oracle gap (compounds were judged on counts and warm-up only, not against their members), two
 history classes (reconfiguring a live instance; a report write that fails part-way) and three
 value classes (dotted names in Sync, control characters and scalar elements in JSON, rows of
-maximal width).
+maximal width); wave 6 two seam gaps (library timers were outside the simulated clock and no
+consumer was ever slow on it; no stream was ever held open across another repository call), two
+oracle gaps (outcomes compared with the library's own evaluation; a prefix run only had to
+contain the entitled values) and four generator gaps (thresholds, date formats, dynamically
+typed JSON, sources out of date order).
 
 | seeded change | wave | what it does | needs | caught at once? | check and verdict |
 |---|---|---|---|---|---|
